@@ -3,5 +3,5 @@ CONSTANTS
   Thorough = FALSE
 INIT Init
 NEXT Next
-INVARIANTS Agree Safe TargetReached Shadowed DomainOK EmitRow
+INVARIANTS Agree Safe SkipIndependent TargetReached Shadowed DomainOK EmitRow
 CHECK_DEADLOCK FALSE
